@@ -5,12 +5,12 @@
      C10post_instr_line  parse_line (gr_stage l) = emb_form (denote l) on instruction lines: the five operand slots in order,
                          append for one object / extend for the objects of a list, mnemonic, comment (" ".join, "" for an empty one)
      C10post_line        the same equation for every line of the language wline_okb fx_all
-   The oracle is the validated grammar stage gr_stage; `members_okb l` (decidable, evaluated on every generated tree by the
-   check) says that two members of the line's register lists that are spelled alike are the same register, i.e. the
-   grammar element list_element is a function of the member's text. *)
+   The oracle is the validated grammar stage gr_stage; Proofs/PostMembers.v shows that on a line of the language two members of
+   register lists that are spelled alike have the same grammar fields (`members_okb`), i.e. gr_stage's list_element, a function of
+   the member's text as the real grammar element is, answers correctly for every member. *)
 From Coq Require Import String Ascii List Bool ZArith NArith Lia.
 From OV Require Import Model.PyString Model.PyDyn Model.PyPost Model.LexA64 Model.ParseA64 Model.SyntaxA64 Model.PostA64.
-From OV Require Import Model.PostMembers Proofs.PyDyn Proofs.PyPost Proofs.ParseA64Regs.
+From OV Require Import Model.PostMembers Proofs.PyDyn Proofs.PyPost Proofs.ParseA64Regs Proofs.PostMembers.
 From OVC Require Import PostA64Gen C10postOps C10post C10postList C10postInstr.
 Import ListNotations.
 Open Scope string_scope.
@@ -58,19 +58,19 @@ Qed.
 Print Assumptions C10post_operand.
 
 (* ------------------------------------------------------------------ instruction lines *)
-Lemma ops_processed : forall mn ops c x, wline_okb fx_all (WLInstr mn ops c) = true -> members_okb (WLInstr mn ops c) = true ->
+Lemma ops_processed : forall mn ops c x, wline_okb fx_all (WLInstr mn ops c) = true ->
   forall o, In o ops -> g_process_operand (gr_stage (WLInstr mn ops c) x) (gr_wop o) = Ok (emb_wop o).
 Proof.
-  intros mn ops c x H M o I. cbn [wline_okb] in H. rewrite !andb_true_iff in H. destruct H as (_ & _ & _ & F & _).
+  intros mn ops c x H o I. pose proof (members_ok _ _ H) as M. cbn [wline_okb] in H. rewrite !andb_true_iff in H. destruct H as (_ & _ & _ & F & _).
   rewrite forallb_forall in F. apply C10post_operand; [apply F; exact I|].
   intros e E. apply (stage_members mn ops c x M). cbn [line_members]. eapply members_sub; eassumption.
 Qed.
 
 Theorem C10post_instr_line : forall mn ops c x line ln,
-  wline_okb fx_all (WLInstr mn ops c) = true -> members_okb (WLInstr mn ops c) = true ->
+  wline_okb fx_all (WLInstr mn ops c) = true ->
   g_parse_line (gr_stage (WLInstr mn ops c) x) line ln = Ok (emb_form (denote (WLInstr mn ops c)) x line ln).
 Proof.
-  intros mn ops c x line ln H M. apply instr_line_gen.
+  intros mn ops c x line ln H. apply instr_line_gen.
   - repeat split; reflexivity.
   - cbn [wline_okb] in H. rewrite !andb_true_iff in H. destruct H as (_ & _ & L & _). apply Nat.leb_le in L. exact L.
   - apply ops_processed; assumption.
@@ -79,10 +79,10 @@ Print Assumptions C10post_instr_line.
 
 (* ------------------------------------------------------------------ every line of the language *)
 Theorem C10post_line : forall l x line ln,
-  wline_okb fx_all l = true -> dirx_ok x = true -> members_okb l = true ->
+  wline_okb fx_all l = true -> dirx_ok x = true ->
   g_parse_line (gr_stage l x) line ln = Ok (emb_form (denote l) x line ln).
 Proof.
-  intros l x line ln H X M. destruct l as [mn ops c|n c|n ps c|raw].
+  intros l x line ln H X. destruct l as [mn ops c|n c|n ps c|raw].
   - apply C10post_instr_line; assumption.
   - apply C10post_line_partial; [reflexivity|exact X].
   - apply C10post_line_partial; [reflexivity|exact X].
@@ -95,10 +95,10 @@ Example C10post2_nonvacuous :
   let l := WLInstr "ld4" [WList [mkwreg "v" 0 (Some ("", "s"%char)); mkwreg "V" 1 (Some ("", "S"%char))] (Some "0");
                           WRange (mkwreg "v" 9 (Some ("4", "s"%char))) (mkwreg "v" 10 (Some ("4", "s"%char))) None;
                           WMem (BX false 0) MTNone (MCPost true (mknum false false "64"))] (Some " x") in
-  wline_okb fx_all l = true /\ members_okb l = true /\ length (p_operands (denote l)) = 5%nat /\
+  wline_okb fx_all l = true /\ length (p_operands (denote l)) = 5%nat /\
   (exists f ops, g_parse_line (gr_stage l (mkdirx PNone [] None)) (PStr "t") (PInt 3) = Ok (PObj "InstructionForm" 0 f) /\
      assoc "_operands" f = Some (PList ops) /\ length ops = 5%nat /\ assoc "_comment_id" f = Some (PStr "x")).
 Proof.
-  cbv zeta. split; [reflexivity|]. split; [reflexivity|]. split; [reflexivity|].
+  cbv zeta. split; [reflexivity|]. split; [reflexivity|].
   eexists. eexists. rewrite C10post_line by reflexivity. vm_compute. repeat split.
 Qed.
